@@ -255,6 +255,8 @@ func generate(prop, tier string, seed uint64, jl *jobList) int {
 		genLeafInjected(r, "fail", jl.addFlow)
 	case "C19flow":
 		genC19Flow(r, thorough, jl.addFlow)
+	case "bigbatch":
+		genBigBatches(r, thorough, jl.addFlow)
 	case "batchflow":
 		genBatchFlow(r, thorough, jl.addFlow)
 	case "C10":
